@@ -18,6 +18,7 @@ import tempfile
 from harness.lib.framework import Prop, coq_bool, coq_list, coq_N, coq_opt, coq_str, coq_Z
 
 SCRATCH = "/var/tmp"
+INHERITED = "set in the runner's own environment"
 DUMP = os.path.join(os.path.dirname(os.path.abspath(__file__)), "c30_dump.py")
 PYBIN = "/venv/bin/python"
 SF_YML = ('version: v1.0\nworkflows:\n  w:\n    type: cwl\n    config:\n      file: tool.cwl\n'
@@ -84,9 +85,14 @@ class C30(Prop):
                   "stdin/stdout/stderr targets).  Floats are modelled by their job-file spelling (sign, digits, fraction, exponent) "
                   "rendered through decimal.Decimal as both runners do (dec_repr; C30_float_spelling_kept: a spelling "
                   "without exponent and not below 1e-6 is passed unchanged); spellings of more than 15 significant digits are "
-                  "outside.  PARTIAL: binding on array items, records, File arguments, "
-                  "JavaScript valueFrom/position are outside the models (item bindings are exercised by the oracle "
-                  "only); for an array binding with shellQuote:false under ShellCommandRequirement spec_* follows the CWL "
+                  "outside.  Bindings on array items are in both models: cwltool's sort keys were read off bind_input "
+                  "([P,name] + [P,name,n,itempos,name,name] under an array binding, [n,itempos,name,name] without); the "
+                  "theorems cover item bindings under an array binding that leaves shellQuote unwritten and has a shell-safe "
+                  "prefix (C30_item_binding_order); C30_item_only_order_refuted, C30_item_twice_refuted, "
+                  "C30_item_array_prefix_refuted are the witnesses of the three known divergences.  The declared "
+                  "EnvVarRequirement variables are compared with the model (sf_env) for every completed case.  "
+                  "PARTIAL: records, File arguments, "
+                  "JavaScript valueFrom/position are outside the models; for an array binding with shellQuote:false under ShellCommandRequirement spec_* follows the CWL "
                   "text (nothing quoted) whereas cwltool still quotes the items (known finding); the base64 wrapper of "
                   "execute() and /bin/sh itself are exercised, not modelled.")
     LEVEL_NOTE = ("Trusted: Coq kernel + vm_compute; hand-written models CwlCmd/Model.v and Shell/Model.v (sh_lex is a "
@@ -220,7 +226,8 @@ class C30(Prop):
             if a["plain"]:
                 a["sep"] = True
         c = {"f": "tool", "kind": kind, "shell": shell, "base": [rng.choice(HOSTILE[1:])] if rng.random() < 0.15 else [],
-             "args": args, "inputs": inputs, "job": job, "env": [], "stdin": None, "stdout": None, "stderr": None}
+             "args": args, "inputs": inputs, "job": job, "env": [], "stdin": None, "stdout": None, "stderr": None,
+             "leak": rng.random() < 0.08}
         if rng.random() < 0.35:
             strs = [i["name"] for i in inputs if i["type"] == "string"]
             for k in rng.sample(["C30_A", "C30_B1", "C30_X_Y", "C30_d"], rng.choice([1, 2, 3])):
@@ -340,8 +347,12 @@ class C30(Prop):
             tempfile.tempdir = os.path.join(d, "tmp")
             os.environ["TMPDIR"] = tempfile.tempdir
             obs = {}
+            if c.get("leak"):          # a variable of the RUNNER's environment, not declared by the tool
+                os.environ["C30_INHERITED"] = INHERITED
+            else:
+                os.environ.pop("C30_INHERITED", None)
             so, se = io.StringIO(), io.StringIO()
-            rc = self.cwlmain.main(["--no-container", "--quiet", "--outdir", d + "/o-ref", "--tmpdir-prefix", d + "/tmp/",
+            rc = self.cwlmain.main(["--no-container", "--quiet", "--relax-path-checks", "--outdir", d + "/o-ref", "--tmpdir-prefix", d + "/tmp/",
                                     "--tmp-outdir-prefix", d + "/tmp/", "tool.cwl", "job.json"], stdout=so, stderr=se)
             dump = self._read_dump(d + "/o-ref/c30_dump.json")
             obs["ref"] = dump if rc == 0 and dump else {"fail": True, "why": re.sub(r"\x1b\[[0-9;]*m", "", se.getvalue())[-300:]}
@@ -356,6 +367,7 @@ class C30(Prop):
                         obs[k][r] = None
             return json.loads(json.dumps(obs).replace(d, "<dir>"))
         finally:
+            os.environ.pop("C30_INHERITED", None)
             os.chdir(cwd)
             tempfile.tempdir = old_tmp
             if old_env is None:
@@ -386,13 +398,19 @@ class C30(Prop):
 
         if norm(sf) != norm(ref):
             return ("argv", f"argv under cwltool {json.dumps(ref['argv'])}, under StreamFlow {json.dumps(sf['argv'])}")
-        if sf["env"] != ref["env"]:
+        strip = lambda e: {k: v for k, v in e.items() if k != "C30_INHERITED"}
+        if strip(sf["env"]) != strip(ref["env"]):
             return ("env", f"EnvVarRequirement environment under cwltool {ref['env']}, under StreamFlow {sf['env']}")
         if sf["stdin"] != ref["stdin"] or (sf["stdin_file"] is None) != (ref["stdin_file"] is None):
             return ("stdin", f"stdin under cwltool {ref['stdin']!r}, under StreamFlow {sf['stdin']!r}")
         for k in ("stdout_file", "stderr_file"):
             if sf[k] != ref[k]:
                 return (k[:6], f"{k[:6]} redirected to {ref[k]!r} under cwltool, {sf[k]!r} under StreamFlow")
+        if sf["env"].get("C30_INHERITED") != ref["env"].get("C30_INHERITED"):
+            return ("env-inherited", f"a variable of the runner's own environment (C30_INHERITED) is "
+                                     f"{ref['env'].get('C30_INHERITED')!r} for the tool under cwltool and "
+                                     f"{sf['env'].get('C30_INHERITED')!r} under StreamFlow; other inherited names: "
+                                     f"{len(ref.get('other_env_names', []))} vs {len(sf.get('other_env_names', []))}")
         return None
 
     # ---------------------------------------------------------------- known-finding classes
@@ -486,10 +504,9 @@ class C30(Prop):
         decl = f"{coq_opt(c['stdout'], coq_str)} {coq_opt(c['stderr'], coq_str)}"
         seen = f"{coq_opt(fb('stdout_file'), coq_str)} {coq_opt(fb('stderr_file'), coq_str)}"
         streams = f"{decl} {coq_bool(ok)} {seen}"
-        if c.get("kind") != "plain" or any(i["item"] is not None for i in c["inputs"]):
-            return f"CStreams {decl} {seen}" if ok else None
         ins = coq_list([f"(mkI {coq_str(i['name'])} {coq_bool(i['type'].endswith('[]'))} "
-                        f"{coq_opt(i['bind'], self._coq_binding)})" for i in c["inputs"]])
+                        f"{coq_opt(i['bind'], self._coq_binding)} {coq_opt(i['item'], self._coq_binding)})"
+                        for i in c["inputs"]])
         tool = (f"(mkT {coq_bool(c['shell'])} {coq_list([coq_str(x) for x in [PYBIN, DUMP] + c['base']])} "
                 f"{coq_list([self._coq_binding(a) for a in c['args']])} {ins})")
         job = coq_list([f"({coq_str(k)}, " + (f"Arr {coq_list([self._coq_sval(x) for x in v])}" if isinstance(v, list)
@@ -503,7 +520,16 @@ class C30(Prop):
             return [_b(PYBIN), _b(DUMP)] + [a.encode("latin-1") for a in o[side]["argv"]]
 
         cmd = [_b(x) for x in o["sf_cmd"]] if o.get("sf_cmd") is not None else None
-        return f"CTool {tool} {job} {coq_opt(cmd, lst)} {coq_opt(argv('sf'), lst)} {coq_opt(argv('ref'), lst)} {streams}"
+        envd = coq_list([f"({coq_str(k)}, " + (f"VfLit {coq_str(v[1])}" if v[0] == "lit" else f"VfIn {coq_str(v[1])}") + ")"
+                         for k, v in c["env"]])
+        seen_env = o["sf"].get("env", {}) if ok else {}
+        decl_names = [k for k, _ in c["env"]]
+        pairs = [(k, seen_env.get(k, "<unset>")) for k in decl_names] + \
+                sorted((k, v) for k, v in seen_env.items() if k not in decl_names)
+        envo = coq_list([f"({coq_str(k.encode('latin-1'))}, {coq_str(v.encode('latin-1'))})" for k, v in pairs])
+        inh = coq_list([f"({coq_str('C30_INHERITED')}, {coq_str(INHERITED)})"] if c.get("leak") else [])
+        return (f"CTool {tool} {job} {coq_opt(cmd, lst)} {coq_opt(argv('sf'), lst)} {coq_opt(argv('ref'), lst)} {streams} "
+                f"{envd} {inh} {envo}")
 
     def nontrivial(self, c):
         strs = []
